@@ -8,5 +8,6 @@ CONSTANTS
   MaxLen = 2
   MaxWrites = 2
   ContinueAfterError = TRUE
+  Rich = TRUE
 INVARIANTS Emit R1_RoundTrip R1s_StreamExact R2_FileNoReplacement R3_OneMessagePerAcceptedBatch I_Order I_Sync
 CHECK_DEADLOCK FALSE
